@@ -300,8 +300,8 @@ theorem goodRest_identFull (i : IdentA) (hok : IdentOk i) : GoodRest false (iden
       have hform : g ++ (identText i ++ rest) = g ++ (c' :: w ++ (offText i.off ++ rest)) := by
         rw [htext]; simp [List.append_assoc]
       rw [hform]
-      exact clitOr_none_words A64.shiftOps shiftWords g (c' :: w) (offText i.off ++ rest) c' w rfl hws' hg
-        shiftOps_words (by rw [← hname]; exact hnok.noShift) (hne rest hf').noAlpha
+      exact shiftOp_none_name g c' w (offText i.off ++ rest) hg hc' hw (by rw [← hname]; exact hnok.noShift)
+        (hne rest hf')
 
 /-- without `#`, the immediate alternative is the identifier alternative -/
 theorem immediate_nohash (g : Txt) (c : Nat) (t : Txt) (hg : Blank g) (hws : isWs c = false) (h35 : c ≠ 35)
